@@ -21,20 +21,15 @@ _rel_pre = [
     ("g", "PG(self.project) >= 1 and self.project.attributes['start'] is not None"),
     ("eff", "Eff(some(self._lastBookedResource), self.scenarioIdx) > 0"),
     ("ledger", "Ledger(RSof(some(self._lastBookedResource), self.scenarioIdx))"),
-    ("lists", "forall(s, forall(t, implies(s != t and s in MyRS(self).slotTaskUsage and t in MyRS(self).slotTaskUsage, "
-              "MyRS(self).slotTaskUsage[s] != MyRS(self).slotTaskUsage[t])))"),
-    # just booked: the slot is full, and this task's entry is the only one of this task in the slot and sits last
-    ("booked", "some(self.currentSlotIdx) in RSof(some(self._lastBookedResource), self.scenarioIdx).slotTaskUsage and "
-               "used(RSof(some(self._lastBookedResource), self.scenarioIdx), some(self.currentSlotIdx)) == PG(self.project)"),
-    ("entry", "len(RSof(some(self._lastBookedResource), self.scenarioIdx).slotTaskUsage[some(self.currentSlotIdx)]) >= 1 and "
-              "forall(k, 0, len(RSof(some(self._lastBookedResource), self.scenarioIdx).slotTaskUsage[some(self.currentSlotIdx)]), "
-              "iff(RSof(some(self._lastBookedResource), self.scenarioIdx).slotTaskUsage[some(self.currentSlotIdx)][k][0] == self.property, "
-              "k == len(RSof(some(self._lastBookedResource), self.scenarioIdx).slotTaskUsage[some(self.currentSlotIdx)]) - 1))"),
-    ("entry-positive", "MyEntry(self) > 0 and MyEntry(self) <= PG(self.project)"),
-    # the effort still missing is what this booking was for
-    ("need", "required_effort - effort_before_slot > 0 and "
-             "required_effort - effort_before_slot <= MyEntry(self) / 3600 * Eff(some(self._lastBookedResource), self.scenarioIdx)"),
+    ("lists", "ListsDistinct(MyRS(self))"),
+    # just booked: the slot is full and this task's entry sits last
+    ("booked", "some(self.currentSlotIdx) in MyRS(self).slotTaskUsage and used(MyRS(self), some(self.currentSlotIdx)) == PG(self.project) and "
+               "len(MyList(self)) >= 1 and MyList(self)[len(MyList(self)) - 1][0] == self.property"),
+    ("entries-fit", "EntriesFit(MyRS(self))"),
+    ("need", "required_effort - effort_before_slot > 0"),
 ]
+# the task has one entry in its final slot (no earlier portion of the same task in that slot)
+ghost("UniqueEntry", ["ts"], "forall(k, 0, len(MyList(ts)) - 1, MyList(ts)[k][0] != ts.property)")
 ghost("MyRS", ["ts"], "RSof(some(ts._lastBookedResource), ts.scenarioIdx)")
 ghost("MyList", ["ts"], "MyRS(ts).slotTaskUsage[some(ts.currentSlotIdx)]")
 ghost("MyEntry", ["ts"], "MyList(ts)[len(MyList(ts)) - 1][1]")
@@ -47,18 +42,21 @@ contract(
     ensures=[
         # C01: releasing the unused tail keeps the slot consistent: per-task portions still fit the slot total
         ("ledger", "Ledger(MyRS(self))"),
+        ("entries-fit", "EntriesFit(MyRS(self)) and ListsDistinct(MyRS(self))"),
         ("frame", "forall(s, implies(s != some(self.currentSlotIdx), used(MyRS(self), s) == old(used(MyRS(self), s)) "
                   "and usage(MyRS(self), s) == old(usage(MyRS(self), s))))"),
         # C03: after trimming, the task's portion of the final slot is exactly what the missing effort needs
-        ("exact-effort", "MyEntry(self) / 3600 * Eff(some(self._lastBookedResource), self.scenarioIdx) == required_effort - effort_before_slot"),
-        ("returned-seconds", "result[1] == MyEntry(self)"),
+        # (when the booking could cover it: need <= what was booked)
+        ("exact-effort", "implies(old(UniqueEntry(self)) and required_effort - effort_before_slot <= old(MyEntry(self)) / 3600 * Eff(some(self._lastBookedResource), self.scenarioIdx), "
+                         "MyEntry(self) / 3600 * Eff(some(self._lastBookedResource), self.scenarioIdx) == required_effort - effort_before_slot)"),
+        ("never-more", "implies(old(UniqueEntry(self)), MyEntry(self) <= old(MyEntry(self)))"),
         # C06 (forward): the reported end lies after everything that was in the slot before this task plus the
         # task's own portion (to within the one-second rounding)
-        ("end-after-work", "implies(forward, secs(result[0]) - secs(PT(self.project, some(self.currentSlotIdx))) >= "
+        ("end-after-work", "implies(forward and old(UniqueEntry(self)), secs(result[0]) - secs(PT(self.project, some(self.currentSlotIdx))) >= "
                            "old(PG(self.project) - MyEntry(self)) + MyEntry(self) - 1/2)"),
         ("end-in-slot", "implies(forward, secs(result[0]) <= secs(PT(self.project, some(self.currentSlotIdx))) + PG(self.project) + 1/2)"),
         # C06 (backward): the reported start lies before the task's portion, which ends where later work begins
-        ("start-before-work", "implies(not forward, secs(PT(self.project, some(self.currentSlotIdx))) + PG(self.project) - secs(result[0]) >= "
+        ("start-before-work", "implies(not forward and old(UniqueEntry(self)), secs(PT(self.project, some(self.currentSlotIdx))) + PG(self.project) - secs(result[0]) >= "
                               "old(PG(self.project) - MyEntry(self)) + MyEntry(self) - 1/2)"),
     ],
     calls={"self.project.idxToDate": ("spec", ["self", "i"], "ite(self.attributes['start'] is None, None, PT(self, i))")},
@@ -148,6 +146,7 @@ contract(
         ("g", "PG(self.project) >= 1 and self.project.attributes['start'] is not None"),
         ("offset", "0 <= self.slotStartOffset and self.slotStartOffset < PG(self.project)"),
         ("ledger", f"Ledger({_br_rs})"),
+        ("entries", f"EntriesFit({_br_rs})"),
         ("lists", f"forall(s, forall(t, implies(s != t and s in {_br_rs}.slotTaskUsage and t in {_br_rs}.slotTaskUsage, "
                   f"{_br_rs}.slotTaskUsage[s] != {_br_rs}.slotTaskUsage[t])))"),
         ("res-limits-wf", "NodeLimWf(resource, self.scenarioIdx) and AncLimWf(resource, self.scenarioIdx)"),
@@ -158,6 +157,7 @@ contract(
     assumes=L.anc_axioms("self.property") + L.anc_axioms("resource"),
     ensures=[
         ("ledger", f"Ledger({_br_rs})"),
+        ("entries", f"EntriesFit({_br_rs})"),
         # C01: the start offset only ever *raises* the used seconds of the first slot, never above the slot
         ("usage-kept-when-refused", f"implies(result == 0, forall(s, usage({_br_rs}, s) == old(usage({_br_rs}, s))))"),
         ("other-slots", f"forall(s, implies(s != some(self.currentSlotIdx), used({_br_rs}, s) == old(used({_br_rs}, s)) and "
@@ -172,7 +172,8 @@ contract(
                   f"{_br_rs}.slotTaskUsage[some(self.currentSlotIdx)][len({_br_rs}.slotTaskUsage[some(self.currentSlotIdx)]) - 1][1] > 0 and "
                   f"result == {_br_rs}.slotTaskUsage[some(self.currentSlotIdx)][len({_br_rs}.slotTaskUsage[some(self.currentSlotIdx)]) - 1][1] / 3600 * "
                   f"ite(attr(resource, 'efficiency', self.scenarioIdx) is None or some(attr(resource, 'efficiency', self.scenarioIdx)) == 0, 1, some(attr(resource, 'efficiency', self.scenarioIdx))))"),
-        ("others", f"forall(o, 'Ref:ResourceScenario', implies(o != {_br_rs} and old(RSsep(o, {_br_rs})), LedgerSame(o) and RSsep(o, {_br_rs})))"),
+        ("others", f"forall(o, 'Ref:ResourceScenario', implies(o != {_br_rs} and old(RSsep(o, {_br_rs})), LedgerSame(o) and RSsep(o, {_br_rs}) and "
+                   "implies(old(EntriesFit(o)), EntriesFit(o)) and implies(old(ListsDistinct(o)), ListsDistinct(o))))"),
         # C05: a booking happens only while the task's own and inherited limits admit it
         ("task-limits", "implies(result > 0, forall(j, implies(chain_in(self.property, j) and TLimOn(chain(self.property, j), self.scenarioIdx), "
                         "old(LimitsOkSpec(some(TLim(chain(self.property, j), self.scenarioIdx)), some(self.currentSlotIdx), True, resource.id)))))"),
@@ -198,7 +199,7 @@ ghost("ResOk", ["r", "ts"],
       "RSof(r, ts.scenarioIdx).scoreboard is not None and RSof(r, ts.scenarioIdx).project == ts.project and "
       "RSof(r, ts.scenarioIdx).property == r and RSof(r, ts.scenarioIdx).scenarioIdx == ts.scenarioIdx and "
       "some(ts.currentSlotIdx) < len(some(RSof(r, ts.scenarioIdx).scoreboard).sb) and "
-      "Ledger(RSof(r, ts.scenarioIdx)) and ListsDistinct(RSof(r, ts.scenarioIdx)) and "
+      "Ledger(RSof(r, ts.scenarioIdx)) and ListsDistinct(RSof(r, ts.scenarioIdx)) and EntriesFit(RSof(r, ts.scenarioIdx)) and "
       "NodeLimWf(r, ts.scenarioIdx) and AncLimWf(r, ts.scenarioIdx) and "
       "(attr(r, 'efficiency', ts.scenarioIdx) is None or some(attr(r, 'efficiency', ts.scenarioIdx)) >= 0)")
 ghost("World", ["ts"],
